@@ -1,6 +1,7 @@
 package main
 
 import (
+	"sort"
 	"fmt"
 	"reflect"
 	"strconv"
@@ -206,6 +207,32 @@ type vInit struct {
 	C vChk `config:"c"`
 }
 
+// a field whose type takes its setting through an Unpack method, under a validate tag; and a type
+// with a Validate hook as list element and map entry, where the configuration says null
+type vUnp int
+
+func (u *vUnp) Unpack(v int64) error { *u = vUnp(v); return nil }
+
+type vUnpS string
+
+func (u *vUnpS) Unpack(s string) error { *u = vUnpS(s); return nil }
+
+type vNz int
+
+func (v vNz) Validate() error {
+	if v == 0 {
+		return fmt.Errorf("zero")
+	}
+	return nil
+}
+
+type vHook struct {
+	U vUnp           `config:"u" validate:"min=5"`
+	S vUnpS          `config:"s" validate:"required"`
+	L []vNz          `config:"l"`
+	M map[string]vNz `config:"m"`
+}
+
 var vInitTy = &tyNode{Kind: "struct", Fields: []tyField{
 	{"A", "a", "min=1", &tyNode{Kind: "prim", Prim: primKinds[1]}},
 	{"B", "b", "min=1", &tyNode{Kind: "prim", Prim: primKinds[1]}},
@@ -227,6 +254,49 @@ var vOuterTy = &tyNode{Kind: "struct", Fields: []tyField{
 
 func hookedCases(g *Gen) {
 	r := g.R
+	// (d) Unpacker fields under validate tags; null entries of element types with a Validate hook
+	for i := 0; i < 12; i++ {
+		cfgH := map[string]interface{}{"u": int64([]int{3, 5, 9, 0}[r.Intn(4)]), "s": []string{"", "x", "yy"}[r.Intn(3)]}
+		if r.Bool() {
+			cfgH["l"] = []interface{}{int64(1 + r.Intn(3)), []interface{}{nil, int64(2), int64(0)}[r.Intn(3)]}
+		}
+		if r.Bool() {
+			cfgH["m"] = map[string]interface{}{"k": []interface{}{nil, int64(2), int64(0)}[r.Intn(3)]}
+		}
+		var x vHook
+		c, _ := ucfg.NewFrom(cfgH)
+		var err error
+		gvOf := func(x vHook) string {
+			var ls, ms []string
+			for _, e := range x.L {
+				ls = append(ls, fmt.Sprintf("GP (CI (%d))", int(e)))
+			}
+			keys := make([]string, 0, len(x.M))
+			for k := range x.M {
+				keys = append(keys, k)
+			}
+			sort.Strings(keys)
+			for _, k := range keys {
+				ms = append(ms, fmt.Sprintf("(%s, GP (CI (%d)))", coqStr(k), int(x.M[k])))
+			}
+			return fmt.Sprintf("(GStructV [GP (CI (%d)); GP (CS %s); GSlice %s; GMapV %s])", int(x.U), coqStr(string(x.S)), coqList(ls), coqList(ms))
+		}
+		oldH := gvOf(x)
+		p, pm := guard(func() { err = c.Unpack(&x) })
+		obs, d := "UPanic", "PANIC "+pm
+		if !p && err != nil {
+			name, path := "EOther", ""
+			if e, ok := err.(ucfg.Error); ok {
+				name, path = reasonName(e), e.Path()
+			}
+			obs, d = fmt.Sprintf("(UErr %s %s)", name, coqStr(path)), descErr(err)
+		} else if !p {
+			obs, d = "(UOk "+gvOf(x)+")", fmt.Sprintf("%+v", x)
+		}
+		g.Add(Case{Coq: fmt.Sprintf("CHooked %s (TStruct []) %s %s %s", coqStr("vHook"), oldH, obs, gvOf(x)),
+			Desc: map[string]interface{}{"kind": "hooked", "type": "vHook (U: IntUnpacker under min=5; S: StringUnpacker under required; L, M: elements with a Validate hook rejecting zero)", "config": descTree(cfgH), "observed": d, "after": fmt.Sprintf("%+v", x)},
+			Tags: []string{"hooked:vHook"}, Nontrivial: true})
+	}
 	// (c) defaults of primitive types meet the validators
 	for i := 0; i < 12; i++ {
 		cfgI := map[string]interface{}{}
@@ -358,6 +428,8 @@ func genReify(g *Gen, mode string) {
 				cfgData, fix = lateFailure(r, t)
 			} else if isList && tcfg.Validators && r.P(1, 3) {
 				t, cfgData, fix = keptInvalid(r)
+			} else if tcfg.Validators && r.P(1, 12) {
+				t, cfgData, fix = ptrInvalid(r)
 			}
 			if c, ok := reifyUnpackCase(r, t, cfgData, []int{0, 0, 1, 2, 3}[r.Intn(5)], pz, fix); ok {
 				g.Add(c)
@@ -424,6 +496,48 @@ func keptInvalid(r *Rng) (*tyNode, map[string]interface{}, func(reflect.Value)) 
 				st.Field(0).SetInt(7)
 			}
 			s.Index(i).Set(e)
+		}
+	}
+	return t, cfg, fix
+}
+
+// ptrInvalid: a pre-filled pointer field under a validator about the value it points to; the
+// configuration may not mention it at all
+func ptrInvalid(r *Rng) (*tyNode, map[string]interface{}, func(reflect.Value)) {
+	kinds := []int{1, 5, 8, 10} // int, uint, float64, duration
+	k := primKinds[kinds[r.Intn(len(kinds))]]
+	vt := []string{"min=1", "positive", "max=10", "nonzero", "min=2, max=5"}[r.Intn(5)]
+	pt := &tyNode{Kind: "ptr", Elem: &tyNode{Kind: "prim", Prim: k}}
+	if r.P(1, 4) {
+		pt = &tyNode{Kind: "ptr", Elem: pt}
+	}
+	t := &tyNode{Kind: "struct", Fields: []tyField{
+		{GoName: "P", CTag: "p", VTag: vt, T: pt},
+		{GoName: "Z", CTag: "z", T: &tyNode{Kind: "prim", Prim: primKinds[1]}}}}
+	cfg := map[string]interface{}{"z": int64(5)}
+	if r.P(1, 3) {
+		cfg["p"] = []interface{}{int64(3), uint64(0), int64(-1), uint64(50)}[r.Intn(4)]
+	}
+	fix := func(v reflect.Value) {
+		if r.P(1, 5) {
+			return // a nil pointer
+		}
+		pv := reflect.New(k.typ)
+		switch {
+		case strings.HasPrefix(k.name, "uint"):
+			pv.Elem().SetUint([]uint64{0, 3, 50}[r.Intn(3)])
+		case strings.HasPrefix(k.name, "float"):
+			pv.Elem().SetFloat([]float64{0, 3, -1.5, 50}[r.Intn(4)])
+		default:
+			pv.Elem().SetInt([]int64{0, 3, -1, 50}[r.Intn(4)])
+		}
+		f := v.Field(0)
+		if f.Type().Elem().Kind() == reflect.Ptr {
+			pp := reflect.New(f.Type().Elem())
+			pp.Elem().Set(pv)
+			f.Set(pp)
+		} else {
+			f.Set(pv)
 		}
 	}
 	return t, cfg, fix
